@@ -4,12 +4,14 @@ import DaskModel.Model.SetItem
 import DaskModel.Model.Store
 import DaskModel.Model.Take
 import DaskModel.Model.ArrOverlap
+import DaskModel.Model.SliceND
 open Dask
 open Dask.Slice1D
 open Dask.SetItem
 open Dask.Store
 open Dask.Take
 open Dask.ArrOverlap
+open Dask.SliceND
 
 /-! Line-protocol handlers of group `slicing` (C20, C21, C26, C29). -/
 
@@ -291,7 +293,33 @@ def hNpyChunks : Handler := handler fun args =>
   | [ax, cs] => do pure (SExp.ofNatss (npyChunks (← ax.toNat?) (← cs.toNatss?)))
   | _ => none
 
+def toIdx? (e : SExp) : Option Idx :=
+  match e with
+  | .list [.sym "sl", s] => do pure (Idx.sl (← toSlice? s))
+  | .list [.sym "int", i] => do pure (Idx.int (← i.toInt?))
+  | _ => none
+
+def ofBIdx : BIdx → SExp
+  | .sl s => .list [.sym "sl", ofSlice s]
+  | .int o => .list [.sym "int", .int o]
+
+/-- `(slicend ((lengths…)…) ((sl (a b c)) | (int i) …))` ↦ `(ok (((out…) (in…) (bidx…)) …) (blockdims…))` | `(raised)`:
+    the tasks of `slice_slices_and_integers` in dict order and the new blockdims -/
+def hSliceND : Handler := handler fun args =>
+  match args with
+  | [cs, idx] => do
+    let cs ← cs.toNatss?
+    let idx ← (← idx.toList?).mapM toIdx?
+    match newBlockdims cs idx with
+    | none => pure raised
+    | some bd =>
+      pure (ok [.list ((tasks cs idx).map fun t =>
+                  .list [SExp.ofNats t.1, SExp.ofNats t.2.1, .list (t.2.2.map ofBIdx)]),
+                .list (bd.map SExp.ofInts)])
+  | _ => none
+
 def table : List (String × Handler) := [
+  ("slicend", hSliceND),
   ("overlapchunks", hOverlapChunks), ("trimchunks", hTrimChunks), ("ensuremin", hEnsureMin),
   ("overlapblocks", hOverlapBlocks), ("trimblocks", hTrimBlocks), ("padpositions", hPadPositions),
   ("slicesfromchunks", hSlicesFromChunks), ("fuseslice", hFuseSlice), ("fuseint", hFuseInt),
